@@ -365,6 +365,16 @@ def carrier(kind, cfg, seqn, mode, sib):
                        plan={'start': 'N0', 'want_iter': 2}, retry={'use_default': True})
         nodes['OUT'] = N('OUT', mode='inline', params=[['a', ['rec', 'N0', 'D', 3]]])
         order = ['N0', 'X', 'D', 'OUT']
+    elif kind == 'recout':
+        # hostile (D9): X reads a node inside a recurrent subgraph without being ordered after it, and retries
+        # while that node is re-executed; whatever value it reads, every attempt must get the SAME arguments
+        nodes['N0']['start_of'] = True
+        nodes['MID'] = N('MID', mode='async', params=[['a', ['in', 'N0']]])
+        x['params'] = [['a', ['in', 'MID']]]
+        nodes['D'] = N('D', mode='async', params=[['a', ['in', 'MID']]], kind='dest', recurrent=True,
+                       plan={'start': 'N0', 'want_iter': 1})
+        nodes['OUT'] = N('OUT', mode='inline', params=[['a', ['rec', 'N0', 'D', 2]], ['s', ['in', 'X']]])
+        order = ['N0', 'MID', 'X', 'D', 'OUT']
     else:   # X is the first one-of candidate
         nodes['ALT'] = N('ALT', mode='async', params=[['a', ['in', 'N0']]])
         nodes['OUT'] = N('OUT', mode='thread', params=[['a', ['oneof', ['X', 'ALT']]]])
@@ -400,10 +410,10 @@ def work_c12(prop, tier, seed, widx, nworkers):
         nsched = 3
     acc.counters['configurations_total'] = len(allcfg) if widx == 0 else 0
     for cfg, seqn in mine:
-        kind = rng.choice(['chain', 'sibling', 'sibling', 'oneof', 'rec'])
+        kind = rng.choice(['chain', 'sibling', 'sibling', 'oneof', 'rec', 'recout'])
         mode = rng.choice(['async', 'thread', 'inline', 'process'])
         sib = rng.choice(['slow', 'fail'])
-        if 'Fatal' in seqn and kind in ('oneof', 'rec'):
+        if 'Fatal' in seqn and kind in ('oneof', 'rec', 'recout'):
             kind = 'chain'
         prog = carrier(kind, cfg, seqn, mode, sib)
         acc.programs += 1
